@@ -169,19 +169,17 @@ def i02hDD (cfg : Cfg) (dd k : Nat) : Option Nat :=
 def oj2hDD (cfg : Cfg) (dd k : Nat) : Option Nat :=
   (Layer.zoc cfg dd).map fun c => if cfg.bmi then Bmi.oj2h c k else Lut.oj2h c k
 
-/-- `x_mask(delta_depth)`: `0x5555… >> (64 − 2·dd)`; a shift by 64 (dd = 0) overflows: panic in debug, and in
-    release the shift amount is masked to 0 -/
-def xMaskFn (cfg : Cfg) (dd : Nat) : Option Nat :=
-  if dd = 0 then (if cfg.debug then none else some 0x5555555555555555)
-  else some (0x5555555555555555 >>> (64 - 2 * dd))
+/-- `x_mask(delta_depth)` = `0x5555… & xy_mask(delta_depth)`, `xy_mask(dd)` = `0xFFFF… .checked_shr(64 − 2·dd)` or `0`
+    (since the repair `fix: x_mask, y_mask and xy_mask at depth 0`: before it, `dd = 0` was a shift by 64 — panic in
+    debug, all ones in release) -/
+def xyMaskFn (_cfg : Cfg) (dd : Nat) : Option Nat :=
+  if dd = 0 then some 0 else some (0xFFFFFFFFFFFFFFFF >>> (64 - 2 * dd))
 
-def xyMaskFn (cfg : Cfg) (dd : Nat) : Option Nat :=
-  if dd = 0 then (if cfg.debug then none else some 0xFFFFFFFFFFFFFFFF)
-  else some (0xFFFFFFFFFFFFFFFF >>> (64 - 2 * dd))
+def xMaskFn (cfg : Cfg) (dd : Nat) : Option Nat :=
+  (xyMaskFn cfg dd).map (0x5555555555555555 &&& ·)
 
 def yMaskFn (cfg : Cfg) (dd : Nat) : Option Nat :=
-  if dd = 0 then (if cfg.debug then none else some 0xAAAAAAAAAAAAAAAA)
-  else some (0xAAAAAAAAAAAAAAAA >>> (64 - 2 * dd))
+  (xyMaskFn cfg dd).map (0xAAAAAAAAAAAAAAAA &&& ·)
 
 /-- `Layer::internal_edge(hash, delta_depth)` (associated function: no depth check here) -/
 def internalEdge (cfg : Cfg) (hash dd : Nat) : Option (List Nat) := do
